@@ -63,6 +63,13 @@ CHECKS = {
          "HEX/SREC streams over all record types, data lengths, boundary addresses and extended-address sequences; every single-nibble corruption of a record must be rejected.",
     note="Structurally valid inputs only (malformed inputs are C20). Trusted: amc/ref/elfio.py and the struct readers in c14.py, written from the format specifications.",
     design="DESIGN.md section 3, C14"),
+ "C15": dict(
+    category="model_checking",
+    technique="bounded exhaustive enumeration of loader inputs (12 ELF machines x segment geometries x filesz/memsz classes x 3 page sizes; generated PE/Mach-O; HEX/SREC/raw; shipped samples) with a byte-for-byte comparison of the task memory against an independent segment table",
+    text="Every image is loaded with load_program; every byte of every loadable segment must equal the file byte mapped there, [filesz,memsz) must read as zero (the generated files carry non-zero bytes after each segment), "
+         "the program counter must equal the entry point and read_instruction must return the file's bytes. Shipped samples are compared on their constant bytes (relocation slots may hold external symbols).",
+    note="Geometries: aligned, unaligned-congruent, two segments sharing a page, adjacent segments; filesz == memsz, bss tail, filesz 0. Known findings: loaders returning None for aarch64/avr/bpf/sh ELF and Mach-O images.",
+    design="DESIGN.md section 3, C15"),
  "C16": dict(
     category="model_checking",
     technique="bounded exhaustive enumeration of structure definitions (<=3/4 fields over the field-kind alphabet, packed/natural, pointer size 32/64, unions, trailing variable-length fields) against a C layout calculator validated with gcc and python struct",
